@@ -1,0 +1,118 @@
+//! Verification hooks (cargo feature `verif-hooks`, off by default).
+//!
+//! A thread-local, append-only event log plus an optional logical step
+//! budget. Nothing in here changes the behaviour of the library; the hooks
+//! only make internal state observable to external monitors.
+
+use std::cell::RefCell;
+
+/// Kind of decoder request an event was recorded for.
+#[derive(Clone, Copy, Debug, PartialEq, Eq)]
+pub enum DecReq {
+    Word,
+    Str,
+    SetLimit(usize),
+    ClearLimit,
+}
+
+/// One recorded event.
+#[derive(Clone, Debug, PartialEq, Eq)]
+pub enum Event {
+    /// Decoder state observed on entry of a decoder request.
+    Dec {
+        req: DecReq,
+        offset: usize,
+        limit: Option<usize>,
+        len: usize,
+    },
+    /// A type tracker instance was created.
+    TrackerNew { instance: usize },
+    /// A type tracker instance recorded `rid -> ty`.
+    TrackerTrack {
+        instance: usize,
+        rid: u32,
+        ty: String,
+    },
+    /// A type tracker instance answered a query.
+    TrackerResolve {
+        instance: usize,
+        id: u32,
+        result: Option<String>,
+    },
+}
+
+/// Panic payload used when the step budget is exhausted.
+#[derive(Debug)]
+pub struct StepBudgetExceeded;
+
+#[derive(Default)]
+struct State {
+    record: bool,
+    log: Vec<Event>,
+    budget: Option<u64>,
+    steps: u64,
+    next_instance: usize,
+}
+
+thread_local! {
+    static STATE: RefCell<State> = RefCell::new(State::default());
+}
+
+/// Turns event recording on or off for the current thread.
+pub fn record(on: bool) {
+    STATE.with(|s| s.borrow_mut().record = on)
+}
+
+/// Removes and returns all events recorded on the current thread.
+pub fn drain() -> Vec<Event> {
+    STATE.with(|s| std::mem::take(&mut s.borrow_mut().log))
+}
+
+/// Sets (or clears) the number of logical steps the current thread may take
+/// before `step()` panics with `StepBudgetExceeded`. Resets the step counter.
+pub fn set_step_budget(budget: Option<u64>) {
+    STATE.with(|s| {
+        let mut s = s.borrow_mut();
+        s.budget = budget;
+        s.steps = 0;
+    })
+}
+
+/// Returns the number of logical steps taken since the last `set_step_budget`.
+pub fn steps() -> u64 {
+    STATE.with(|s| s.borrow().steps)
+}
+
+/// Counts one logical step.
+pub fn step() {
+    let over = STATE.with(|s| {
+        let mut s = s.borrow_mut();
+        s.steps += 1;
+        matches!(s.budget, Some(b) if s.steps > b)
+    });
+    if over {
+        // Disarm so that unwinding code cannot re-trigger.
+        STATE.with(|s| s.borrow_mut().budget = None);
+        std::panic::panic_any(StepBudgetExceeded);
+    }
+}
+
+/// Records an event (if recording is on).
+pub fn emit(e: impl FnOnce() -> Event) {
+    STATE.with(|s| {
+        let mut s = s.borrow_mut();
+        if s.record {
+            let e = e();
+            s.log.push(e);
+        }
+    })
+}
+
+/// Returns a fresh instance number for a tracker.
+pub fn new_instance() -> usize {
+    STATE.with(|s| {
+        let mut s = s.borrow_mut();
+        s.next_instance += 1;
+        s.next_instance
+    })
+}
